@@ -28,7 +28,8 @@ RULE = ('forms: matrices from tables.rand_spec (dims 1..4, all value kinds incl.
         'zeros / with a value split over duplicate entries, shuffled), coordinate dict (with / without zeros), list of '
         'row arrays float/int, list of row dicts keyed (0, col) (with / without zeros), list of sparse rows (stored zeros, '
         'unsorted), scipy csr/csc (raw arrays with stored zeros and unsorted indices)/coo (shuffled, explicit zeros, '
-        'duplicates)/lil/dok/bsr each also WITH explicitly stored zeros, int dtype}; of every constructed table the queries that look at '
+        'duplicates)/lil/dok/bsr each also WITH explicitly stored zeros, lists of dok rows (a dok_matrix is a dict: another converter), '
+        'mixed-layout row lists with a dok or a non-dok first row, int dtype}; of every constructed table the queries that look at '
         'stored entries are asked before anything reads nnz: matrix_data.nnz, nonzero(), min per axis and overall, against the plain '
         'non-zero cells and against a twin built from the dense array; ctor: the same forms with ids duplicated anywhere on an axis, one id too '
         'few / too many, metadata too short / too long / all-empty of the wrong size / holding a non-mapping (truthy or '
@@ -104,6 +105,25 @@ def make_input(inp):
                     np.array([0, len(cv)], dtype=np.int32))
             out.append(csr_matrix(arrs, shape=(1, w)))
         return out, {}
+    if k in ('dokrows', 'mixedrows'):
+        # list of 1 x w sparse rows in the layouts named per row ('dok' first for 'dokrows')
+        out = []
+        for lay, w, cv in inp[1]:
+            arrs = (np.array([v for _, v in cv], dtype=float), np.array([c for c, _ in cv], dtype=np.int32),
+                    np.array([0, len(cv)], dtype=np.int32))
+            m = csr_matrix(arrs, shape=(1, w))
+            if lay == 'dok':
+                d = dok_matrix((1, w))
+                for c, v in cv:
+                    if v != 0:
+                        d[0, c] = v
+                    else:
+                        dict.__setitem__(d._dict if hasattr(d, '_dict') else d, (0, c), 0.0)
+                m = d
+            elif lay != 'csr':
+                m = m.asformat(lay)
+            out.append(m)
+        return out, {}
     if k == 'sparse':
         _, layout, dtype, nr, nc, entries = inp
         if layout in ('csr', 'csc'):
@@ -142,6 +162,10 @@ def input_tree(inp, cd):
         return [5, [ent(row) for row in inp[1]]]
     if k == 'sparserows':
         return [6, [[w, [[c, cd.val(v)] for c, v in cv]] for w, cv in inp[1]]]
+    if k == 'dokrows':
+        return [8, [[w, [[c, cd.val(v)] for c, v in cv]] for lay, w, cv in inp[1]]]
+    if k == 'mixedrows':        # a non-dok first row: list_sparse_to_sparse, whatever the layouts
+        return [6, [[w, [[c, cd.val(v)] for c, v in cv]] for lay, w, cv in inp[1]]]
     if k == 'sparse':
         _, layout, dtype, nr, nc, entries = inp
         return [7, nr, nc, ent(entries)]
@@ -182,7 +206,8 @@ def _with_stored_zeros(m, zeros):
 VARIANTS = ['array_float', 'array_int', 'array_bool', 'lists', 'triples', 'triples_zeros', 'triples_dups',
             'dict', 'dict_zeros', 'rowarrays', 'rowarrays_int', 'rowdicts', 'rowdicts_zeros', 'sparserows',
             'sparserows_zeros_unsorted', 'csr', 'csc', 'coo', 'lil', 'dok', 'bsr', 'csr_zeros_unsorted',
-            'csc_zeros_unsorted', 'coo_dups_zeros', 'csr_int', 'lil_zeros', 'dok_zeros', 'bsr_zeros', 'sparserows_zeros']
+            'csc_zeros_unsorted', 'coo_dups_zeros', 'csr_int', 'lil_zeros', 'dok_zeros', 'bsr_zeros', 'sparserows_zeros',
+            'dokrows', 'dokrows_zeros', 'mixedrows_csr_first', 'mixedrows_dok_first']
 
 
 def applicable(v, M):
@@ -251,6 +276,23 @@ def encode_matrix(rng, v, M):
                 rng.shuffle(cv)
             rows.append([nc, cv])
         return ['sparserows', rows]
+    if v in ('dokrows', 'dokrows_zeros', 'mixedrows_csr_first', 'mixedrows_dok_first'):
+        rows = []
+        for i in range(nr):
+            cv = [(j, M[i][j]) for j in range(nc) if M[i][j] != 0]
+            if v == 'dokrows_zeros':
+                cv += [(j, 0.0) for j in range(nc) if M[i][j] == 0][:1]
+            lay = 'dok' if v.startswith('dokrows') else rng.choice(['dok', 'csr', 'lil', 'coo', 'csc'])
+            rows.append([lay, nc, cv])
+        if v == 'mixedrows_csr_first':
+            rows[0][0] = rng.choice(['csr', 'lil', 'coo'])
+            if nr > 1:
+                rows[rng.randrange(1, nr)][0] = 'dok'
+            return ['mixedrows', rows]
+        rows[0][0] = 'dok'
+        if v == 'mixedrows_dok_first' and nr > 1:
+            rows[rng.randrange(1, nr)][0] = rng.choice(['csr', 'lil', 'coo'])
+        return ['dokrows', rows]
     if v in SPARSE_LAYOUTS:
         return ['sparse', v, 'float', nr, nc, nz]
     if v == 'csr_int':
@@ -280,6 +322,8 @@ def carries_shape(inp):
         return len(inp[1]), None
     if k == 'sparserows':
         return len(inp[1]), inp[1][0][0] if inp[1] else 0
+    if k in ('dokrows', 'mixedrows'):
+        return len(inp[1]), inp[1][0][1] if inp[1] else 0
     if k == 'sparse':
         return inp[3], inp[4]
     return None, None
@@ -300,6 +344,8 @@ def entries_of(inp):
         return [(i, j, v) for i, row in enumerate(inp[1]) for _, j, v in row]
     if k == 'sparserows':
         return [(i, c, v) for i, (w, cv) in enumerate(inp[1]) for c, v in cv]
+    if k in ('dokrows', 'mixedrows'):
+        return [(i, c, v) for i, (lay, w, cv) in enumerate(inp[1]) for c, v in cv]
     if k == 'sparse':
         return [tuple(e) for e in inp[5]]
     raise ValueError(k)
